@@ -1,6 +1,9 @@
 import Bec2Verif.Lemmas.AesTables
 import Bec2Verif.Lemmas.Cbc
 import Bec2Verif.Model.Modes
+import Bec2Verif.Lemmas.AesKeySched
+import Bec2Verif.Lemmas.Frame
+import Bec2Verif.Lemmas.Adapter
 /-!
 # C16 — bundled AES tables = GF(2^8) definitions; adapter = pure zero-padded CBC; stream modes split-independent
 
@@ -9,7 +12,11 @@ import Bec2Verif.Model.Modes
   given or all-zero IV, `mac` its last block, `decrypt ∘ encrypt` returns exactly the padded data;
   the adapter model is a pure function of `(key, iv, data)` (no state to depend on);
 * mode clause (proved part): OFB output and state do not depend on how the input is split across calls.
-Not yet theorems (see `ASSUMPTIONS` in harness/c16.py): model AES = FIPS-197 cipher for every key/block.
+* cipher clause: the model of `pyaes.AES` (table-driven rounds on packed words, the key-schedule loop) **is** FIPS-197:
+  `encrypt` = Cipher ∘ KeyExpansion, `decrypt` = InvCipher ∘ KeyExpansion for every key of 16/24/32 bytes and every
+  block (`Spec/Fips197.lean` is the standard written out: SubBytes as field inverse + affine map, ShiftRows, MixColumns
+  over GF(2^8), Figures 5, 11, 12), and InvCipher inverts Cipher — so `BlockInv aesCipher`, the hypothesis of C02,
+  C06 and C08, is discharged.
 -/
 namespace Bec2Verif.Props.C16
 open Bec2Verif Bec2Verif.Spec.Gf Bec2Verif.Gen Bec2Verif.AesTables
@@ -129,6 +136,58 @@ theorem ofbLoop_append (B : BlockCipher) (k : B.K) (a b reg rem out : Bytes) :
 
 /-- the regenerated constants of `crypto.AES128` -/
 theorem consts_pinned : Gen.AES_BLOCK_SIZE = 16 ∧ Gen.AES_KEY_SIZE = 16 := by decide
+
+/-! ### the cipher -/
+
+open Bec2Verif.Spec.Fips in
+/-- `AES(key).encrypt(block)` = FIPS-197 AES encryption, all three key sizes -/
+theorem aes_encrypt_is_fips (key : Bytes) (k : Aes.Keys) (h : Aes.mkKeys key = .ok k) (pt : List Nat)
+    (hl : pt.length = 16) (hb : ∀ x ∈ pt, x < 256) : Aes.encryptBlock k pt = aesEncrypt (key.map UInt8.toNat) pt :=
+  AesW.encrypt_eq_fips key k h pt hl hb
+
+open Bec2Verif.Spec.Fips in
+/-- `AES(key).decrypt(block)` = FIPS-197 InvCipher under the same key expansion -/
+theorem aes_decrypt_is_fips (key : Bytes) (k : Aes.Keys) (h : Aes.mkKeys key = .ok k) (ct : List Nat)
+    (hl : ct.length = 16) (hb : ∀ x ∈ ct, x < 256) : Aes.decryptBlock k ct = aesDecrypt (key.map UInt8.toNat) ct :=
+  AesW.decrypt_eq_fips key k h ct hl hb
+
+open Bec2Verif.Spec.Fips Bec2Verif.AesGf in
+/-- FIPS-197 itself: InvCipher ∘ Cipher = id for every round-key sequence of bytes and every number of rounds -/
+theorem fips_invCipher_cipher (w : Nat → State) (hw : ∀ r, ByteSt (w r)) (nr : Nat) (hnr : 1 ≤ nr) (s : State)
+    (hs : ByteSt s) : invCipher w nr (cipher w nr s) = s := invCipher_cipher w hw nr hnr s hs
+
+/-- the key schedule is KeyExpansion (Fig. 11) for 128-, 192- and 256-bit keys -/
+theorem aes_key_schedule_is_fips (key : List Nat) (rounds : Nat) (hb : ∀ x ∈ key, x < 256)
+    (h : (key.length = 16 ∧ rounds = 10) ∨ (key.length = 24 ∧ rounds = 12) ∨ (key.length = 32 ∧ rounds = 14)) :
+    AesW.cw (Aes.expandKey key rounds) = Spec.Fips.keyExpansion (Spec.Fips.colsOfBytes key) rounds :=
+  AesW.expandKey_eq key rounds hb h
+
+/-- decryption inverts encryption for every key the constructor accepts -/
+theorem aes_decrypt_encrypt (key : Bytes) (k : Aes.Keys) (h : Aes.mkKeys key = .ok k) (pt : List Nat)
+    (hl : pt.length = 16) (hb : ∀ x ∈ pt, x < 256) : Aes.decryptBlock k (Aes.encryptBlock k pt) = pt :=
+  AesW.decryptBlock_encryptBlock key k h pt hl hb
+
+/-- **the bundled AES is an invertible block cipher**: the hypothesis `BlockInv` of C02 / C06 / C08, discharged -/
+theorem aes_blockInv : BlockInv aesCipher where
+  encLen k b := by
+    show ((Aes.encryptBlock k (b.map UInt8.toNat)).map UInt8.ofNat).length = 16
+    rw [List.length_map]
+    exact AesW.encryptBlock_length k _
+  inv key k b hk hb := AesW.aes_inv key k hk b hb
+
+/-- … so the bundled plug-in (adapter over pyaes) inverts its own zero-padded encryption and has a 16-byte MAC -/
+theorem aes_plugin_instance : CryptoInv aesCrypto ∧ Bf3.MacLen aesCrypto :=
+  ⟨adapter_cryptoInv aesCipher aes_blockInv, adapter_macLen aesCipher aes_blockInv.encLen⟩
+
+/-- FIPS-197 Appendix C.1 – C.3 evaluated on the *specification* (all three key sizes, both directions) -/
+example : Spec.Fips.aesEncrypt (List.range 16) [0x00,0x11,0x22,0x33,0x44,0x55,0x66,0x77,0x88,0x99,0xaa,0xbb,0xcc,0xdd,0xee,0xff] =
+    [0x69,0xc4,0xe0,0xd8,0x6a,0x7b,0x04,0x30,0xd8,0xcd,0xb7,0x80,0x70,0xb4,0xc5,0x5a] := by decide +kernel
+example : Spec.Fips.aesEncrypt (List.range 24) [0x00,0x11,0x22,0x33,0x44,0x55,0x66,0x77,0x88,0x99,0xaa,0xbb,0xcc,0xdd,0xee,0xff] =
+    [0xdd,0xa9,0x7c,0xa4,0x86,0x4c,0xdf,0xe0,0x6e,0xaf,0x70,0xa0,0xec,0x0d,0x71,0x91] := by decide +kernel
+example : Spec.Fips.aesEncrypt (List.range 32) [0x00,0x11,0x22,0x33,0x44,0x55,0x66,0x77,0x88,0x99,0xaa,0xbb,0xcc,0xdd,0xee,0xff] =
+    [0x8e,0xa2,0xb7,0xca,0x51,0x67,0x45,0xbf,0xea,0xfc,0x49,0x90,0x4b,0x49,0x60,0x89] := by decide +kernel
+example : Spec.Fips.aesDecrypt (List.range 32) [0x8e,0xa2,0xb7,0xca,0x51,0x67,0x45,0xbf,0xea,0xfc,0x49,0x90,0x4b,0x49,0x60,0x89] =
+    [0x00,0x11,0x22,0x33,0x44,0x55,0x66,0x77,0x88,0x99,0xaa,0xbb,0xcc,0xdd,0xee,0xff] := by decide +kernel
 
 /-- FIPS-197 Appendix B / C.1 vectors evaluated on the model (tests, labelled as tests) -/
 example : (Aes.mkKeys ((List.range 16).map UInt8.ofNat)).toOption.map
